@@ -99,6 +99,8 @@ func (ps *SchemaSet) messageSchema(src protoreflect.MessageDescriptor) (RootSche
 		placeholder.To, err = schemaPackage.buildObjectSchema(src, msgOptions.GetObject())
 	}
 	if err != nil {
+		// do not leave a typed nil behind: a later lookup must see "not built"
+		placeholder.To = nil
 		return nil, err
 	}
 	return placeholder.To, nil
@@ -1206,6 +1208,8 @@ func buildMessageFieldSchema(pkg *Package, context fieldContext, src protoreflec
 			ref.To, err = pkg.buildObjectSchema(msg, msgOptions.GetObject())
 		}
 		if err != nil {
+			// do not leave a typed nil behind: a later lookup must see "not built"
+			ref.To = nil
 			return nil, err
 		}
 
